@@ -68,7 +68,7 @@ func (k Keeper) ProcessUBIRecord(ctx sdk.Context, record types.UBIRecord) error 
 	record.DistributionLast = currUnixTimestamp
 	k.SetUBIRecord(ctx, record)
 
-	amount := sdk.NewInt(int64(record.Amount)).Mul(sdk.NewInt(1000_000))
+	amount := sdk.NewIntFromUint64(record.Amount).Mul(sdk.NewInt(1000_000))
 
 	defaultDenom := k.DefaultDenom(ctx)
 	// if dynamic ubi record, mint only missing amount
